@@ -105,6 +105,13 @@ func genChangelogR(t *rt.Tape, tier string, r *rt.Run) ([]*clEntry, []byte) {
 		e.H, e.Mi, e.S = t.Range(0, 23, "cl.h"), t.Range(0, 59, "cl.mi"), t.Range(0, 59, "cl.s")
 		zh := t.Range(0, 26, "cl.zh") - 12
 		zm := []int{0, 30, 45}[t.Weighted([]int{6, 1, 1}, "cl.zm")]
+		if t.Bool(1, 3, "cl.commonzone") {
+			// the offsets that also occur as the simulated process zone
+			zh, zm = []int{0, 1, -5, 5}[t.Draw(4, "cl.commonzonev")], 0
+			if zh == 5 {
+				zm = 30
+			}
+		}
 		e.ZoneSec = zh*3600 + zm*60
 		if zh < 0 {
 			e.ZoneSec = zh*3600 - zm*60
@@ -179,8 +186,14 @@ func clCompare(r *rt.Run, api string, got *changelog.ChangelogEntry, want *clEnt
 }
 
 // clParseOneLoop drives ParseOne the way a caller would.
+// clBufSize is the size of the caller's bufio.Reader for the ParseOne loop (0 = default).
+var clBufSize int
+
 func clParseOneLoop(rd io.Reader) ([]changelog.ChangelogEntry, error) {
 	br := bufio.NewReader(rd)
+	if clBufSize > 0 {
+		br = bufio.NewReaderSize(rd, clBufSize)
+	}
 	out := []changelog.ChangelogEntry{}
 	for i := 0; i < 100000; i++ {
 		e, err := changelog.ParseOne(br)
@@ -254,9 +267,24 @@ func runC17(r *rt.Run, tier string) {
 	entries, doc := genChangelogR(t, tier, r)
 	faulty := t.Bool(1, 2, "config.faulty")
 	api := "Parse"
+	clBufSize = 0
 	if t.Bool(1, 3, "cl.api") {
 		api = "ParseOne"
+		// the caller's buffered reader may be smaller than bufio's default
+		clBufSize = []int{0, 16, 64, 300, 4095}[t.Weighted([]int{3, 1, 1, 1, 1}, "cl.bufsize")]
+		if clBufSize > 0 {
+			r.Probe("ParseOne-on-a-small-bufio-reader")
+		}
 	}
+	// the process time zone is part of the environment: a tape-chosen zone is
+	// installed as time.Local for the run (entries whose offset equals the local
+	// offset are where Go substitutes the Local location)
+	zones := []int{0, 3600, -18000, 19800}
+	zoff := zones[t.Draw(len(zones), "env.localzone")]
+	saved := time.Local
+	time.Local = time.FixedZone("SIMLOCAL", zoff)
+	defer func() { time.Local = saved }()
+	r.Stats[fmt.Sprintf("env.localzone.%d", zoff)]++
 	L := len(doc) + 1
 	nMal := len(entries) * len(clMalKinds)
 	kind, pos := "none", -1
@@ -490,5 +518,5 @@ func init() {
 		},
 		Assumptions: []string{"reference renderer and entry model written from deb-changelog(5), independent of the library", "time.Time comparison trusts the Go standard library"},
 	})
-	propProbes["C17"] = []string{"concurrent-parses-after-a-truncated-one", "change-line-longer-than-4096-bytes", "change-line-with-carriage-return", "no-final-newline", "truncate-on-entry-boundary", "truncate-inside-entry", "truncate-only-final-newline-missing"}
+	propProbes["C17"] = []string{"ParseOne-on-a-small-bufio-reader", "concurrent-parses-after-a-truncated-one", "change-line-longer-than-4096-bytes", "change-line-with-carriage-return", "no-final-newline", "truncate-on-entry-boundary", "truncate-inside-entry", "truncate-only-final-newline-missing"}
 }
